@@ -624,8 +624,9 @@ def shards(tier, seed):
     for alpha, depth, nj in ((("wide", 2, 12), ("repr", 3, 7)) if thorough else (("small", 2, 8),)):
         for i in range(len(_slices(alphabet_by_name(alpha), nj))):
             out.append({"part": "jit", "alpha": alpha, "slice": [i, nj], "depth": depth, "seed": seed})
+    out.append({"part": "pitch", "seed": seed})
     # longest first
-    out.sort(key=lambda s: {"jit": 0, "wide": 1, "deep": 2}[s["part"]])
+    out.sort(key=lambda s: {"jit": 0, "wide": 1, "deep": 2, "pitch": 3}[s["part"]])
     return out
 
 
@@ -637,8 +638,96 @@ def _model_for(shard, collect=None):
     return Model(alpha, first_ops=_slices(alpha, k)[i], collect=collect)
 
 
+# ------------------------------------------------------------------ part pitch: the pixel sizes change after the detector exists
+
+PITCHES = [(2.0 * PV, PH), (PV, 2.0 * PH), (0.5 * PV, 0.5 * PH), (3.0 * PV, 4.0 * PH)]
+PITCH_POS = ["c00", "c12", "lastin", "corner", "vborder", "hborder", "edge_bottom", "edge_right"]
+
+
+def pitch_cases():
+    out = []
+    for way in ("attribute", "procset", "copy-procset"):
+        for pi in range(len(PITCHES)):
+            for order in ("add-change-read", "change-add-read", "add-read-change-read"):
+                out.append({"part": "pitch", "way": way, "pitch": pi, "order": order})
+    return out
+
+
+def run_pitch_case(case):
+    """all clusters of the position palette on one detector; the geometry's pixel sizes are changed (attribute / Processor.set
+    on the processor or on a deep copy of it, as a sweep does); the reported array must bin the clusters with the CURRENT
+    sizes: row = floor(ver / pixel_vert_size), col = floor(hor / pixel_horz_size)"""
+    from pyxel.pipelines import Processor
+
+    nv, nh = PITCHES[case["pitch"]]
+    det = mk.detector("ccd", ROWS, COLS, geo_kw={"pixel_vert_size": PV, "pixel_horz_size": PH})
+    proc = Processor(detector=det, pipeline=mk.pipeline({}))
+    rows = [(float(i + 1), POSITIONS[p][0], POSITIONS[p][1]) for i, p in enumerate(PITCH_POS)]
+    viol = []
+
+    def change(pr):
+        if case["way"] == "attribute":
+            pr.detector.geometry.pixel_vert_size = nv
+            pr.detector.geometry.pixel_horz_size = nh
+        else:
+            pr.set("detector.geometry.pixel_vert_size", nv)
+            pr.set("detector.geometry.pixel_horz_size", nh)
+
+    def expected(v_size, h_size):
+        acc = np.zeros((ROWS, COLS))
+        for n, v, h in rows:
+            r, c = math.floor(Fraction(v) / Fraction(v_size)), math.floor(Fraction(h) / Fraction(h_size))
+            if 0 <= r < ROWS and 0 <= c < COLS:
+                acc[r, c] += n
+        return acc
+
+    try:
+        target = proc
+        if case["order"].startswith("add"):
+            add_clusters(proc.detector.charge, rows)
+            if case["order"] == "add-read-change-read":
+                np.array(proc.detector.charge.array)
+        if case["way"] == "copy-procset":
+            target = copy.deepcopy(proc)
+        change(target)
+        if case["order"] == "change-add-read":
+            add_clusters(target.detector.charge, rows)
+        got = np.array(target.detector.charge.array, dtype=float)
+        want = expected(nv, nh)
+        if not np.array_equal(got, want):
+            viol.append({"key": {"part": "pitch", "code": "binned-with-stale-pixel-size", "way": case["way"], "order": case["order"]},
+                         "what": f"[pixel sizes changed from ({PV}, {PH}) to ({nv}, {nh}) via {case['way']}, {case['order']}] "
+                                 f"reported {got.tolist()}, the clusters {rows} binned with the current sizes give {want.tolist()}",
+                         "case": dict(case)})
+        if case["way"] == "copy-procset":
+            # the processor the copy was made from keeps its own sizes
+            got0 = np.array(proc.detector.charge.array, dtype=float)
+            want0 = expected(PV, PH) if case["order"].startswith("add") else np.zeros((ROWS, COLS))
+            if not np.array_equal(got0, want0):
+                viol.append({"key": {"part": "pitch", "code": "original-changed", "way": case["way"], "order": case["order"]},
+                             "what": f"[pixel sizes changed on a COPY of the processor] the original reports {got0.tolist()}, "
+                                     f"expected {want0.tolist()}", "case": dict(case)})
+    except Exception as e:  # noqa: BLE001
+        viol.append({"key": {"part": "pitch", "code": "raised", "way": case["way"]},
+                     "what": f"[pitch {case}] raised {type(e).__name__}: {str(e)[:200]}", "case": dict(case)})
+    return viol
+
+
 def run_shard(shard):
     os.environ["VERIF_SEED"] = str(shard.get("seed", 0))
+    if shard["part"] == "pitch":
+        viols, n = [], 0
+        for c in pitch_cases():
+            viols += [dict(v, case=dict(v["case"], seed=shard.get("seed", 0))) for v in run_pitch_case(c)]
+            n += 1
+        seen, out = set(), []
+        for v in viols:
+            kk = json.dumps(v["key"], sort_keys=True)
+            if kk not in seen:
+                seen.add(kk)
+                out.append(v)
+        return {"violations": out, "counts": {"transitions": n, "states": n, "pitch_cases": n},
+                "sets": {"explored": [f"pitch:{n} cases"]}, "samples": []}
     t0 = time.time()
     frames = {} if shard["part"] == "jit" else None
     m = _model_for(shard, collect=frames)
@@ -689,6 +778,8 @@ def replay(case):
     if case["part"] == "jit":
         jv, _ = jit_check([case["frame"]])
         return [{"key": k, "what": w, "case": case} for k, w, _ in jv]
+    if case["part"] == "pitch":
+        return [dict(v, case=case) for v in run_pitch_case({k: v for k, v in case.items() if k != "seed"})]
     m = Model(wide_alphabet())
     out = []
     for v in seqx.run_sequence(m, case["ops"]):
